@@ -71,7 +71,7 @@ func vfC05DrawQuery(t *rapid.T, label string) (op vfC05Op) {
 	op.Kind = "query"
 	op.Name = rapid.SampledFrom(vfC05Names).Draw(t, label+"_name")
 	op.Qtype = rapid.SampledFrom([]uint16{dns.TypeA, dns.TypeA, dns.TypeAAAA, dns.TypeHTTPS, dns.TypeTXT}).Draw(t, label+"_qtype")
-	op.Addr = rapid.SampledFrom([]string{"192.0.2.10", "192.0.2.99", "198.18.0.7", "2001:db8::1", "10.0.0.5"}).Draw(t, label+"_addr")
+	op.Addr = rapid.SampledFrom([]string{"192.0.2.10", "192.0.2.99", "198.18.0.7", "2001:db8::1", "10.0.0.5", "10.20.30.40", "10.20.30.41"}).Draw(t, label+"_addr")
 	op.Proto = string(rapid.SampledFrom([]proxy.Proto{proxy.ProtoUDP, proxy.ProtoTCP, proxy.ProtoTLS, proxy.ProtoHTTPS}).Draw(t, label+"_proto"))
 	if op.Proto == string(proxy.ProtoTLS) || op.Proto == string(proxy.ProtoHTTPS) {
 		op.ClientID = rapid.SampledFrom([]string{"", "kid", "guest"}).Draw(t, label+"_cid")
@@ -266,6 +266,9 @@ type vfC05Env struct {
 	listFile string
 	nextID   atomic.Uint64
 	unitID   atomic.Uint32
+	// ready is set once the world is built; before that the save callback
+	// has nothing to read.
+	ready atomic.Bool
 }
 
 func vfNewC05Env() (e *vfC05Env, err error) {
@@ -297,7 +300,24 @@ func vfNewC05Env() (e *vfC05Env, err error) {
 		Clients: []*client.Persistent{{
 			Name: "kid", UID: client.MustNewUID(), ClientIDs: []string{"kid"}, IPs: []netip.Addr{netip.MustParseAddr("192.0.2.10")},
 			UseOwnSettings: true, FilteringEnabled: true, BlockedServices: &filtering.BlockedServices{Schedule: vfEmptyWeek()},
+		}, {
+			// known by the hardware address of its DHCP lease only
+			Name: "leased", UID: client.MustNewUID(), MACs: []net.HardwareAddr{{0x02, 0, 0, 0, 0x05, 0x01}},
+			UseOwnSettings: true, FilteringEnabled: true, BlockedServices: &filtering.BlockedServices{Schedule: vfEmptyWeek()},
 		}},
+		// 10.20.30.40 is leased to the client above, 10.20.30.41 to a device
+		// no client describes
+		DHCPMAC: map[netip.Addr]net.HardwareAddr{
+			netip.MustParseAddr("10.20.30.40"): {0x02, 0, 0, 0, 0x05, 0x01},
+			netip.MustParseAddr("10.20.30.41"): {0x02, 0, 0, 0, 0x05, 0x02},
+		},
+		// what home gives every module: saving the configuration reads every
+		// module's configuration back
+		ConfigModified: func() {
+			if e.ready.Load() {
+				e.configSave()
+			}
+		},
 		FindClient: func(ids []string) (qc *querylog.Client, ferr error) {
 			if storage == nil {
 				return nil, nil
@@ -329,6 +349,7 @@ func vfNewC05Env() (e *vfC05Env, err error) {
 		return nil, err
 	}
 	storage = e.w.storage
+	e.ready.Store(true)
 	// HTTPS answers carry many address hints, so that response filtering takes
 	// its per-hint path (nested lookups under the server lock) while admin
 	// operations queue for the write lock
